@@ -196,11 +196,11 @@ func TestC11Race(t *testing.T) {
 		iters = 400
 	}
 	var n int64
+	var all []schedx.Conc
 	for _, tc := range tableConcs(env.Deep()) {
-		c := sc.conc(t, tc, false)
-		allowed, _ := c.Serial()
-		n += c.FreeRunConc(rep, env, allowed, iters)
+		all = append(all, sc.conc(t, tc, false))
 	}
+	n = schedx.FreeRunAll(rep, env, all, true, iters)
 	rep.Add(n, 0, 0, 0)
 	rep.OutcomeN("free-running race-detector pass [iterations]", n)
 }
